@@ -5,8 +5,10 @@ TRUST = ("Trusted base: Python's ast parser; the alias/name based symbol resolut
          "interpreter sa/core/interp.py (path enumeration by re-execution, abstract inlining of prysm callees); ")
 
 ENGINES = [
-    {"name": "NORM", "path": "sa/core/norm.py", "serves_properties": ["C17"],
+    {"name": "NORM", "path": "sa/core/norm.py", "serves_properties": ["C17", "C20"],
      "kind_free_text": "canonical forms of expression trees: polynomials/rational functions over Q in atoms with I^2=-1, sin^2->1-cos^2, sqrt^2, exp laws; equality by cross multiplication; no sampling, no solver"},
+    {"name": "INDEX", "path": "sa/domains/index.py", "serves_properties": ["C04"],
+     "kind_free_text": "affine x parity abstract domain for centre/offset expressions; decides //2, ceil(/2), floor(/2) identities for all lengths by enumerating parity classes"},
     {"name": "INTERP", "path": "sa/core/interp.py", "serves_properties": ["C17"],
      "kind_free_text": "abstract interpreter over the Python subset prysm uses; pluggable domains; path enumeration; abstract inlining of resolved prysm callees"},
 ]
@@ -20,8 +22,21 @@ CLAIMS = {
     },
 }
 
+CLAIMS["C20"] = {
+    "engine": "NORM",
+    "technique": "static analysis: abstract interpretation of the constructors (subscript stores into the zero matrix, matrix products, kron/einsum/inv on literal matrices) into symbolic 2x2/4x4 matrices over NORM normal forms; identities decided by normal-form equality",
+    "text": "Decides for ALL angles, retardances, charges and generic complex Jones entries: U^H U == I for linear/half-wave/quarter-wave/vortex retarders and the rotation matrix; element(theta) == R(-theta) diag R(theta) against an independent reference rotation; polariser idempotent + Malus; wrappers delegate with the right retardance; Pauli matrices and sum c_i sigma_i == J; jones_to_mueller(J)[i,j] == 1/2 tr(sigma_i J sigma_j J^H) on both code paths (either S3 handedness), which implies multiplicativity, orthogonality for unitary J and M00=1; the propagation adapter maps component (i,j) to (i,j). Not decided: that the batched construction equals the elementwise one (array plumbing).",
+    "note": TRUST + "NORM rewrite rules incl. conj(exp(I u)) = exp(-I u) for real u; Mueller definition via Pauli traces; numpy einsum implicit-output (alphabetical) semantics as modelled in sa/domains/normdom.py.",
+}
+CLAIMS["C04"] = {
+    "engine": "INDEX",
+    "technique": "static analysis: abstract interpretation in an affine x parity index domain (lengths n=2a+p; //2, ceil(./2), floor(./2) exact per parity class); all 2^k parity classes enumerated, so every length is covered; call-graph delegation rule",
+    "text": "Decides for ALL axis lengths (every odd/even combination, growing or shrinking, per axis): fftrange starts at -(n//2); make_xy_grid is (x over columns, y over rows) built from fftrange with step dx; pad2d writes the input at offset N//2 - n//2 on both of its code paths (explicit out_shape and Q-derived) and np.pad widths complete the shape; crop_center reads at n//2 - o//2 with width o (so crop undoes pad and the origin sample maps to the origin sample); the centroid reference, the OTF/MTF/PTF DC index, bandlimited_rms centre, recenter, hann2d, render_synthetic_surface and DM lattice centres equal s//2 of the axis they index; RichData.x/y, Wavefront.pad2d/crop and Interferogram.pad delegate to those primitives. Not decided: the Slices centre (argmin|x| on user supplied axes is a value question) and pad modes' fill values.",
+    "note": TRUST + "the origin convention 'index n//2' of the property; INDEX transfer functions for arange/zeros/slices/np.pad argument capture (sa/domains/index.py).",
+}
+
 NOT_APPLICABLE = {
     "C11": "index bijections are float sqrt/ceil algebra on the index; their failure mode is a rounding event at particular j and the deciding step named by the property (exhaustive j <= 1e5) is execution; no finite static abstraction of j decides it (DESIGN.md section 4, C11)",
 }
-for _p in ("C01 C02 C03 C04 C05 C06 C07 C08 C09 C10 C12 C13 C14 C15 C16 C18 C19 C20").split():
+for _p in ("C01 C02 C03 C05 C06 C07 C08 C09 C10 C12 C13 C14 C15 C16 C18 C19").split():
     NOT_APPLICABLE[_p] = "check not delivered yet in this revision of /verif (design in DESIGN.md section 4); will be claimed only through the structural clauses named there once its rule module exists"
